@@ -39,3 +39,8 @@ func VerifSelectorOrder(s Selector) []string {
 	}
 	return nil
 }
+
+// VerifGeoDistance exposes getDistanceFrom (the distance the closest-server selector compares).
+func VerifGeoDistance(lat1, lon1, lat2, lon2 float64) float64 {
+	return getDistanceFrom(lat1, lon1, lat2, lon2)
+}
